@@ -571,6 +571,13 @@ func (p *projSpec) renderTarget(t *targetSpec) string {
 	}
 	for i := range t.Refs {
 		if r := &t.Refs[i]; r.Kind == "dag" {
+			if r.Name == "tuple" {
+				// the same shape made of tuples, 12 levels only: the interpreter itself walks a
+				// tuple once per path when it freezes a module's globals, so a module with 48
+				// levels never finishes loading and is outside what the properties speak of
+				fmt.Fprintf(&sb, "def _mk_dag_%s():\n    x = (%s,)\n    for _ in range(12):\n        x = (x, x)\n    return x\n\nDAG_%s = _mk_dag_%s()\n\n", t.Name, r.Val.render(), t.Name, t.Name)
+				continue
+			}
 			fmt.Fprintf(&sb, "def _mk_dag_%s():\n    x = [%s]\n    for _ in range(48):\n        x = [x, x]\n    return x\n\nDAG_%s = _mk_dag_%s()\n\n", t.Name, r.Val.render(), t.Name, t.Name)
 		}
 	}
